@@ -649,6 +649,13 @@ def check_after(proj, after, new_state, new_text, check_pep=True, collect=None):
             exp = expected_text(pl, new_state, new_text)
             if exp is not None:
                 got = new[npos:npos + len(exp)]
+                if got == exp and pl.text != exp and pl.text.startswith(exp) and new.startswith(pl.text, npos):
+                    # the new text is a prefix of the old one (`v1.2` after `v1.2-dev-1`): what follows decides
+                    # whether the occurrence was rewritten or is still the old text
+                    nxt = min((q.start for q in plants if q.start >= pl.end), default=len(old))
+                    follow = old[pl.end:nxt]
+                    if not new.startswith(follow, npos + len(exp)) and new.startswith(follow, npos + len(pl.text)):
+                        got = pl.text
                 if got != exp:
                     problems.append(("stale-or-wrong-occurrence",
                                      f"{fn}: pattern {pl.raw!r}: expected {exp!r} got {new[npos:npos + len(exp) + 10]!r}", pl))
